@@ -57,6 +57,29 @@ def _parse(dialect, sql):
     return (canon(r["tree"]), r["exc"], len(r["parse_errors"]), len(r["tokens"] or []))
 
 
+_PARSERS = {}
+
+
+def _parse_reused(dialect, sql):
+    """Parse with ONE long-lived Parser object per dialect (public API: Parser(config).parse(tokens) may be called many times)."""
+    from sqlfluff.core import Linter
+    from sqlfluff.core.errors import SQLParseError
+    from sqlfluff.core.parser import Parser
+    from sqlfluff.core.templaters.base import TemplatedFile
+    from harness.treecheck import cfg_for
+    cfg = cfg_for(dialect)
+    if dialect not in _PARSERS:
+        _PARSERS[dialect] = Parser(config=cfg)
+    tokens, _ = Linter._lex_templated_file(TemplatedFile(source_str=sql, fname="t.sql"), cfg)
+    if tokens is None:
+        return None
+    try:
+        tree = _PARSERS[dialect].parse(tuple(tokens), fname="t.sql")
+        return (canon(tree), None, sum(1 for _ in tree.iter_unparsables()) if tree is not None else 0)
+    except SQLParseError as e:
+        return (None, "SQLParseError", 1)
+
+
 def diff_case(dialect, label, sql, others, do_check_prune):
     out = {"diffs": [], "ntokens": 0, "prune_findings": [], "base": None}
     base = _parse(dialect, sql)
@@ -78,6 +101,10 @@ def diff_case(dialect, label, sql, others, do_check_prune):
         _parse(od, osql)
     if _parse(dialect, sql) != base:
         out["diffs"].append("after-history")
+    # the same text through a Parser object that has already parsed other (similar) texts
+    ru = _parse_reused(dialect, sql)
+    if ru is not None and not base[1] and (ru[0] != base[0] or (ru[0] is None) != (base[0] is None)):
+        out["diffs"].append("reused-parser-object")
     import hashlib
     out["base"] = hashlib.sha1(repr(base).encode("utf-8", "backslashreplace")).hexdigest()
     return out
